@@ -404,7 +404,7 @@ func (s Str) String() string {
 		case pkBytes:
 			parts = append(parts, fmt.Sprintf("%q", p.b))
 		case pkUnit:
-			parts = append(parts, "<u>")
+			parts = append(parts, "<u:"+termString(p.t, 4)+">")
 		case pkAtom:
 			if p.t.op == "var" {
 				parts = append(parts, "<"+p.t.name+">")
@@ -457,4 +457,25 @@ func valuesOfStr(s Str) ([]Value, bool) {
 		}
 	}
 	return out, true
+}
+
+func termString(t *Term, depth int) string {
+	switch t.op {
+	case "const":
+		return t.lit()
+	case "var":
+		return t.name
+	}
+	if depth == 0 {
+		return "..."
+	}
+	head := t.op
+	if t.name != "" {
+		head = t.name
+	}
+	parts := []string{head}
+	for _, a := range t.args {
+		parts = append(parts, termString(a, depth-1))
+	}
+	return "(" + strings.Join(parts, " ") + ")"
 }
